@@ -8,8 +8,9 @@
    descriptors of the Go decoders (model/C02_Descr.v), tied to /repo by the
    correspondence run of harness/cmd/c02. *)
 From Coq Require Import NArith List Bool.
-From ELA Require Import lib.GoSem lib.Bytes lib.VarInt model.C02_Fmt model.C02_Descr
-  proof.C02_Safe proof.C02_Registry.
+From ELA Require Import lib.GoSem lib.Bytes lib.VarInt model.C02_Fmt model.C02_Descr model.C02_Cover
+  proof.C02_Safe proof.C02_Registry proof.C02_Cover gen.C02_decoders.
+From Coq Require Import String.
 (* the correspondence checker is a build dependency of the check (case shards import it) *)
 From ELA Require corr.C02_corr.
 Import ListNotations.
@@ -32,7 +33,7 @@ Theorem C02_accepted_is_linear : forall f, wf_alloc f = true -> forall c bs v re
 Proof. exact decode_ok_linear. Qed.
 Print Assumptions C02_accepted_is_linear.
 
-(* All 102 registered descriptors (transaction with every payload type and
+(* All 120 registered descriptors (transaction with every payload type and
    version, outputs, header/auxpow/block/DposBlock/Confirm, p2p and DPoS
    messages) satisfy the discipline. *)
 Theorem C02_all_formats_wf : forallb wf_alloc all_formats = true.
@@ -49,6 +50,36 @@ Theorem C02_registry_safe : forall id, In id format_ids -> forall c bs,
 Proof. exact registry_safe. Qed.
 Print Assumptions C02_registry_safe.
 
+(* [decoders] is the table of all Deserialize* methods of the decoder packages
+   (auxpow, common, core/contract/program, core/transaction, core/types{,/common,
+   /payload,/outputpayload}, p2p, p2p/msg, dpos/p2p/msg, elanet/bloom, crypto),
+   regenerated from the source on every run.  Each of them is out of scope
+   (exactly the two named below) or covered by a registered descriptor, hence safe. *)
+Theorem C02_every_decoder_has_descriptor : forall d, In d decoders ->
+  In d out_of_scope \/
+  exists id, lookup d cover = Some (Id id) /\ In id format_ids /\
+    forall c bs, fst (decode (fmt_of id) c bs) <> Panic /\
+                 snd (decode (fmt_of id) c bs) <= kf (fmt_of id) * len bs + cf (fmt_of id).
+Proof. exact every_decoder_safe. Qed.
+Print Assumptions C02_every_decoder_has_descriptor.
+
+Theorem C02_out_of_scope :
+  out_of_scope = ["crypto|PublicKey.Deserialize"%string; "p2p|Header.Deserialize"%string].
+Proof. exact out_of_scope_is. Qed.
+Print Assumptions C02_out_of_scope.
+
+(* [make_sites] is the regenerated table (function, number) of make() calls with
+   a non-constant size inside decoder functions.  Each is one of the three
+   bounded byte buffers of common/serialize.go, or belongs to a decoder whose
+   descriptor declares exactly that many (two Go makes per list) pre-allocated
+   lists, all of them bounded by a constant (wf_alloc). *)
+Theorem C02_make_sites_agree : forall fn k, In (fn, k) make_sites ->
+  In (fn, k) buffer_sites \/
+  exists id, lookup fn cover = Some (Id id) /\ In id format_ids /\
+             k = 2 * count_pre (fmt_of id) /\ wf_alloc (fmt_of id) = true.
+Proof. exact make_sites_agree. Qed.
+Print Assumptions C02_make_sites_agree.
+
 (* The discipline is necessary: the Confirm decoder as it was before the fix
    (make([]DPOSProposalVote, signCount) with signCount read from the wire)
    panics on a 46-byte input and requests 412 GB on another. *)
@@ -56,7 +87,7 @@ Theorem C02_count_sized_make_refuted :
   wf_alloc confirm_unfixed = false /\
   fst (decode confirm_unfixed [] (confirm_head ++ [255;255;255;255;255;255;255;127])) = Panic /\
   (let bs := confirm_head ++ [255;255;255;255;0;0;0;0] in
-   length bs = 46%nat /\ 412316860000 <= snd (decode confirm_unfixed [] bs)).
+   List.length bs = 46%nat /\ 412316860000 <= snd (decode confirm_unfixed [] bs)).
 Proof. exact (conj unfixed_not_wf (conj unfixed_panics unfixed_overallocates)). Qed.
 Print Assumptions C02_count_sized_make_refuted.
 
@@ -64,6 +95,12 @@ Print Assumptions C02_count_sized_make_refuted.
    constants; the repaired Confirm decoder rejects both witnesses; a concrete
    version-9 TransferAsset transaction (no attributes/inputs, one default
    output, one program) decodes to a value and consumes all its bytes. *)
+Example C02_tables_nonvacuous :
+  In "core/types/payload|Confirm.Deserialize"%string decoders /\
+  In "dpos/p2p/msg|ConsensusStatus.Deserialize"%string decoders /\
+  In ("p2p/msg|Inv.Deserialize"%string, 2) make_sites /\ count_pre inv_fmt = 1.
+Proof. vm_compute. repeat split; auto 200. Qed.
+
 Example C02_nonvacuous :
   (kf tx_fmt = 517 /\ cf tx_fmt = 16777263 /\ wf_alloc tx_fmt = true) /\
   (decode confirm_fmt [] (confirm_head ++ [255;255;255;255;255;255;255;127]) = (Err, 142) /\
